@@ -247,6 +247,21 @@ func c04Run(t *testing.T, run *Run, sc c04Scenario, rng *rand.Rand) {
 			// second build: "ghost" services are deployed on hosts of the pool (bound or not in the
 			// final table) and removed again, some before and some after the real deploys: the final
 			// set of services is the same, so routing must be too
+			// second build: unjudged traffic for every host of the pool between the commands, so that
+			// anything the proxy remembers per request (a cache of earlier routing decisions, say)
+			// has been filled under every intermediate table before the final one is probed
+			nwarm := 0
+			warm := func() {
+				if b != 1 {
+					return
+				}
+				for _, h := range c04ReqHosts {
+					for _, p := range []string{"/", "/api/v1/x", "/a/b"} {
+						nwarm++
+						w.Do(Req{ID: fmt.Sprintf("warm%d", nwarm), Host: h, Path: p})
+					}
+				}
+			}
 			var ghosts []string
 			ghost := func(k int) {
 				name := fmt.Sprintf("ghost%d", k)
@@ -262,6 +277,7 @@ func c04Run(t *testing.T, run *Run, sc c04Scenario, rng *rand.Rand) {
 				if c04Deploy(w, g, g.Hosts, g.Prefixes) == "" {
 					ghosts = append(ghosts, name)
 				}
+				warm()
 			}
 			if b == 1 {
 				for k := 0; k < 3; k++ {
@@ -270,6 +286,7 @@ func c04Run(t *testing.T, run *Run, sc c04Scenario, rng *rand.Rand) {
 				if len(ghosts) > 0 && rng.IntN(2) == 0 {
 					w.Remove(ghosts[0])
 					ghosts = ghosts[1:]
+					warm()
 				}
 			}
 			for _, i := range rng.Perm(len(sc.Services)) {
@@ -280,11 +297,13 @@ func c04Run(t *testing.T, run *Run, sc c04Scenario, rng *rand.Rand) {
 						fail(w, "deploy-failed", "temporary deploy of %s failed: %s", s.Name, e)
 						bad = true
 					}
+					warm()
 				}
 				if e := c04Deploy(w, s, s.Hosts, s.RawPfx); e != "" {
 					fail(w, "deploy-failed", "deploy of %s (hosts %v prefixes %v) failed: %s", s.Name, s.Hosts, s.RawPfx, e)
 					bad = true
 				}
+				warm()
 			}
 			if b == 1 {
 				for k := 3; k < 5; k++ {
@@ -295,7 +314,9 @@ func c04Run(t *testing.T, run *Run, sc c04Scenario, rng *rand.Rand) {
 						fail(w, "remove-failed", "remove of %s failed: %s", g, c.Err)
 						bad = true
 					}
+					warm()
 				}
+				run.Count("unjudged_requests_between_commands", nwarm)
 			}
 			if b == 0 {
 				stateDir = w.CopyState()
